@@ -620,18 +620,28 @@ def _deltas_args(case):
     return (f"{lit_case_tensor(case['x'], case['scale'])} {cz(case['dim'])} {cz(case['time_dim'])} {cb(case['concatenate'])}")
 
 
+def _deltas_tol(case):
+    """1e-5 for |x| <= 8 (the composite filters are built in float32).  Extreme-magnitude stream: each of the `order` kernel
+    applications carries coefficients rounded to float32 (sum |w_k| = 3/(2 width + 1) <= 1) and the module convolves in float32:
+    |error| <= 2 (order + 2) u32 max|x|"""
+    if not case.get("offset"):
+        return Fraction(1, 10**5)
+    M = max(_case_max_abs([case["x"]], case["scale"]), abs(case["value"]) / case["scale"])
+    return Fraction(1, 10**5) + Fraction(2 * (max(case["order"], 0) + 2) * UNIT["f32"] * M * 1.01)
+
+
 def deltas_term(case, out):
     if out[0] == "err" and lit_err(out[1]) is None:
         return "false"
     return (f"check_deltas {_deltas_args(case)} {cz(case['order'])} {cz(case['width'])} {CMODE[case['mode']]} "
-            f"{cq(Fraction(case['value'], case['scale']))} {cq(Fraction(1, 10**5))} {lit_res_tensor(out)}")
+            f"{cq(Fraction(case['value'], case['scale']))} {cq(_deltas_tol(case))} {lit_res_tensor(out)}")
 
 
 def deltas_spec_term(case, out):
     if out[0] != "ok" or case["order"] < 0 or case["width"] < 1:
         return None
     return (f"spec_deltas_okb {_deltas_args(case)} {cn(case['order'])} {cn(case['width'])} {CMODE[case['mode']]} "
-            f"{cq(Fraction(case['value'], case['scale']))} {cq(Fraction(1, 10**5))} {lit_impl_tensor(out[1])}")
+            f"{cq(Fraction(case['value'], case['scale']))} {cq(_deltas_tol(case))} {lit_impl_tensor(out[1])}")
 
 
 def deltas_metamorphic(case, out):
@@ -646,14 +656,15 @@ def deltas_metamorphic(case, out):
     args = (case["order"], case["width"], case["mode"], value)
     y = torch.tensor(out[1]["data"], dtype=torch.double).reshape(out[1]["shape"])
     D = x.dim()
+    atol = 1e-4 + 2 * float(_deltas_tol(case))
     if case["concatenate"]:
         d = case["dim"] % D
         s = feat_deltas(x, d, case["time_dim"], False, *args)
-        if s.flatten(d, d + 1).shape != y.shape or not torch.allclose(s.flatten(d, d + 1), y, atol=1e-4, rtol=0):
+        if s.flatten(d, d + 1).shape != y.shape or not torch.allclose(s.flatten(d, d + 1), y, atol=atol, rtol=0):
             return {"what": "concatenated deltas differ from stacked deltas merged along the same dimension"}
     other = (FeatureDeltas(case["dim"], case["time_dim"], case["concatenate"], *args)(x.float()) if case["via"] != "module"
              else feat_deltas(x, case["dim"], case["time_dim"], case["concatenate"], *args))
-    if other.shape != y.shape or not torch.allclose(other.double(), y, atol=1e-4, rtol=0):
+    if other.shape != y.shape or not torch.allclose(other.double(), y, atol=atol, rtol=0):
         return {"what": "FeatureDeltas module and feat_deltas function disagree"}
     return None
 
@@ -1228,6 +1239,18 @@ def gen_ops_offset(rng, dtype):
                 stream="offset")
 
 
+def gen_deltas_offset(rng):
+    """feat_deltas / FeatureDeltas on features with a common offset of magnitude 1e3..1e4 (regression deltas of a constant are
+    0: the float32 filter coefficients leave a residue proportional to the offset, see _deltas_tol)"""
+    c = gen_deltas_random(rng)
+    off = rng.choice([1, -1]) * rng.randint(1000, 10000) * c["scale"]
+    c["x"] = dict(c["x"], data=[v + off for v in c["x"]["data"]])
+    if c["mode"] == "constant":
+        c["value"] = rng.choice([0, off, off + rng.randint(-8, 8)])
+    c.update(offset=True, stream="offset")
+    return c
+
+
 def gen_return_f32(rng, thorough):
     """float32 rewards: random short horizons (every gamma of the float64 stream) and long horizons whose true returns stay
     far below the float32 range; judged with the dot-product bound _return_f32_bound and policed for non-finite values"""
@@ -1337,6 +1360,8 @@ def gen_cases(chk):
         cases.append(gen_ops_offset(rng, "f64"))
     for _ in range(8 * emult):
         cases.append(gen_ops_offset(rng, "f32"))
+    for _ in range(20 * emult):
+        cases.append(gen_deltas_offset(rng))
     cases += gen_return_f32(rng, th)
     return cases
 
@@ -1437,6 +1462,16 @@ def run(chk, cases=None):
         "sqrt is an oracle: the model returns variances, the implementation's std is squared before comparison",
         "long horizons (T up to 1100) are judged by the exact rational recursion in Python, not by vm_compute",
         "the command is called in-process with num_workers=0 on files named u%03d.pt",
+        "extreme-magnitude regime (stream 'offset'): features = per-coefficient offset of magnitude 1e3..1e4 (either sign) + unit "
+        "spread on a dyadic grid, float64 and float32 (every value exact in both).  Tolerances follow the conditioning of the "
+        "documented formulas, not a fixed number: store(): |mean - mu| <= u64 |mu|, |std^2 - var| <= 4 u64 max|x|^2 (x count/(count-1) "
+        "under Bessel) for var = sumsq/count - mean^2 in float64 buffers, buffers EQUAL to the exact pooled sums (judged in exact "
+        "rational arithmetic in Python AND by check_ops with that tolerance); forward / mean_var_norm: |y - (x-mean)/max(std,eps)| "
+        "<= (ulp_dtype(mean)/2 [own or stored float64 mean cast to the input dtype] + 2 ulp64(mean)) / max(std,eps) + 3 u_dtype |y|; "
+        "the sqrt oracle of the offset stream is computed on shifted data (variance is shift invariant) so that it is itself "
+        "well conditioned",
+        "float32 returns (stream 'float32'): |R_t - exact| <= (2T+8) u32 sum_{t'>=t} |gamma|^(t'-t) |r_t'| (gamma rounded to float32, "
+        "pow, dot product), horizons up to 1100 with true returns far below the float32 range, non-finite values policed",
     ]
     replaying = cases is not None
     cases = cases if cases is not None else gen_cases(chk)
